@@ -214,6 +214,9 @@ func (valdec mapDecoder) decodeObjectAsMap(dec *Decoder, p interface{}, tag byte
 	}
 	if fields := structInfo.fields; fields != nil {
 		for _, name := range structInfo.names {
+			if dec.Error != nil {
+				break // nothing more can be read: do not walk the remaining fields
+			}
 			field, ok := fields[name]
 			if !ok {
 				// a field the registered struct does not have: keep it as decoded
@@ -229,6 +232,9 @@ func (valdec mapDecoder) decodeObjectAsMap(dec *Decoder, p interface{}, tag byte
 		}
 	} else {
 		for _, name := range structInfo.names {
+			if dec.Error != nil {
+				break // nothing more can be read: do not walk the remaining fields
+			}
 			var v interface{}
 			dec.decodeInterface(dec.NextByte(), &v)
 			valdec.t.UnsafeSetIndex(mp, keyPtr(name), reflect2.PtrOf(&v))
